@@ -287,6 +287,7 @@ def refs_needed(scn):
 
 
 def compute_ref(desc):
+    knobs.set_norm_cache(128)   # the reference starts with an empty normalisation cache as well
     if desc["op"] == "entries":
         # number of adaptix function entries of this op on a fresh retort (upper bound for crash points)
         d = desc["of"]
